@@ -119,7 +119,7 @@ func genSqlr(r *Rng) *Enc {
 			case "int":
 				row[j] = int64(r.Range(-5, 5))
 				if inPD(names[j]) {
-					row[j] = Pick(r, []int64{0, 1700000000, -1, 86400})
+					row[j] = Pick(r, []int64{0, 1700000000, -1, 86400, 1000000000000, 1000000000001, -1000000000001, 1700000000000, 253402300799})
 				}
 			case "float":
 				row[j] = float64(r.Range(-8, 8)) / 4
